@@ -99,7 +99,7 @@ Local Open Scope string_scope.
 
 Definition hfun := StripingPolicy.hfun.
 
-Definition item := (nat * nat)%type.          (* key, owner thread of the node object *)
+Notation item := StripingPolicy.item.          (* key, owner thread of the node object *)
 Definition key_of (x : item) : nat := fst x.
 Definition lk := (nat * nat * nat)%type.       (* a reentrant lock: lock-array generation, table, cell *)
 
